@@ -5,6 +5,14 @@ PROPS = {
         "level": "proof",
         "explanation": "slice algebra helpers: VCs generated from the real source of slicing/_utils.py and slicing/_basic.py",
     },
+    "C16": {
+        "level": "proof",
+        "explanation": "chunk normalisation: uniform layouts proved; normalize_chunks / auto_chunks bounded",
+    },
+    "C15": {
+        "level": "proof",
+        "explanation": "rechunk planner helpers proved; plan-level clauses bounded",
+    },
     "C12": {
         "level": "proof",
         "explanation": "indexing: normalisation, bounds refusal, per-block slice plan, chunk sizes",
